@@ -209,7 +209,7 @@ def history(job):
 def run(ctx, args):
     quick = ctx.tier == "quick"
     n = 3 if quick else 4
-    cfg = f"CONSTANTS N = {n} WithClash = TRUE RootOnly = FALSE\nINIT Init\nNEXT Next\nINVARIANT LoadedOnce\nINVARIANT OrderIndependent\nINVARIANT ClashRejected\nINVARIANT Report\nCHECK_DEADLOCK FALSE\n"
+    cfg = f"CONSTANTS N = {n} WithClash = TRUE RootOnly = FALSE\nSPECIFICATION FairSpec\nPROPERTY Terminates\nINVARIANT LoadedOnce\nINVARIANT OrderIndependent\nINVARIANT ClashRejected\nINVARIANT Report\nCHECK_DEADLOCK FALSE\n"
     res = ctx.tlc("Linker", cfg, timeout=3000)
     records = list(res.records)
     deep = []
@@ -266,7 +266,7 @@ def run(ctx, args):
     return common.finish(
         ctx, level="model_checking", evaluations=len(seen), distinct_nontrivial=multi,
         rule=f"Linker.tla explores all {ndag} import DAGs on {n} modules x clash / no clash x all {norders} sequences of distinct modules the host can add x all loading orders "
-             f"({len(seen)} cases; LoadedOnce, OrderIndependent, ClashRejected checked); every case is replayed with nslc.py-compiled modules, the real Linker and a counting loader; "
+             f"({len(seen)} cases; invariants LoadedOnce, OrderIndependent, ClashRejected and, under weak fairness, the liveness property Terminates checked); every case is replayed with nslc.py-compiled modules, the real Linker and a counting loader; "
              "outcome, load counts and VM values (against the closure compiled as one module) compared; nslr.py run once per DAG. "
              + ("Also all 64 DAGs on 4 modules with the host adding the root only; " if quick else "")
              + "every clash-free DAG once more with one directory per module and the same file name in each; a history of four links in one process with the default loader "
